@@ -80,3 +80,12 @@ func ShortReads(on bool) {}
 
 // SSTCuts: whether sstable.Writer.EstimatedSize returns arbitrary (non-decreasing) values, so a size cut can fall anywhere.
 func SSTCuts(on bool) {}
+
+// RunShardIDs marks shards as running on the host (engine only). StartedShards / StoppedShards report the
+// shard ids passed to StartOnDiskReplica / StopShard so far.
+func RunShardIDs(nh *dragonboat.NodeHost, ids []uint64) {}
+func StartedShards(nh *dragonboat.NodeHost) []uint64    { return nil }
+func StoppedShards(nh *dragonboat.NodeHost) []uint64    { return nil }
+
+// YieldAtDB: every operation on a Pebble database handle becomes a scheduling point (engine only).
+func YieldAtDB(on bool) {}
